@@ -261,6 +261,44 @@ def run(ctx):
     ctx.need("R07.6", "forwarding-reference parameters of fixed_vector members", nfw, 2)
     # the bookkeeping members are as wide as what the constructors are given
     ctx.rule("R07.9", "size_ / capacity_ are stored at least as wide as the constructor's capacity parameter (a capacity of 2^32 or more is not reduced modulo 2^32)")
+    # ---- R07.10: what comes in by rvalue reference is a SOURCE: it may be moved from, never assigned to. `std::swap(a, b)` in place of
+    # `a = std::move(b)` hands the destination slot's stale content back into b - invisible for a temporary, but b can be a live element of
+    # the same container (`v.insert(std::move(v[i]))`, the shift in erase)
+    ctx.rule("R07.10", "an rvalue-reference parameter of fixed_vector's functions is only consumed (std::move / std::forward / read), never the target of an assignment, swap or exchange")
+    nrv = 0
+    seen_rv = set()
+    for g in sorted(prog.fns.values(), key=lambda x: x.id):
+        if not g.has_cfg or not g.file.endswith("lang/fixed_vector.hpp") or (g.file, g.line) in seen_rv:
+            continue
+        rv = {p0["name"] for p0 in g.params if (p0.get("type") or "").rstrip().endswith("&&") and not p0.get("fwd")}
+        rv |= {p0["name"] for p0 in g.params if (p0.get("type") or "").rstrip().endswith("&&")}
+        if not rv:
+            continue
+        seen_rv.add((g.file, g.line))
+        nrv += 1
+        bad = None
+        for _, _, e in g.roots():
+            for n in walk(e["expr"]):
+                if not isinstance(n, dict):
+                    continue
+                tgt = None
+                if n.get("k") == "bin" and n.get("op") in ("=", "+=", "-="):
+                    tgt = [n["l"]]
+                elif n.get("k") == "call" and n.get("op") == "=":
+                    tgt = [n.get("this") if n.get("this") is not None else (n.get("args") or [None])[0]]
+                elif n.get("k") == "call" and short(n.get("name") or "") in ("swap", "iter_swap"):
+                    tgt = list(n.get("args", [])) + ([n["this"]] if n.get("this") is not None else [])
+                elif n.get("k") == "call" and short(n.get("name") or "") == "exchange" and n.get("args"):
+                    tgt = [n["args"][0]]
+                for t0 in tgt or []:
+                    t1 = ir.unwrap(t0) if t0 is not None else None
+                    if isinstance(t1, dict) and t1.get("k") == "ref" and t1.get("decl", "").startswith("param:") and t1["decl"][6:] in rv:
+                        bad = (n, t1["decl"][6:])
+        ctx.check(bad is None, "R07.10", g, "source-only-consumed:%s@%s" % (g.name, g.line),
+                  "%s writes into its rvalue-reference parameter `%s` (`%s`): the source receives the destination's old content - a stale value that an earlier erase / pop_back "
+                  "removed, or a default - and when the source is an element of the same container (`v.insert(std::move(v[i]))`) that element is overwritten with it"
+                  % (short(g.qual), bad[1] if bad else "", fmt(bad[0])[:60] if bad else ""), (g, bad[0].get("ln") if bad else None), why_ok="moved from / read only")
+    ctx.need("R07.10", "fixed_vector functions with an rvalue-reference parameter", nrv, 3)
     from .common import rule_no_narrowing
     rule_no_narrowing(ctx, "R07.9", FV, "the requested capacity is truncated while the storage is allocated at full size: capacity() and every bound differ from the list bounded by the requested capacity", minimum=1)
     # a range insert/append traverses [first, last) once: the iterator type is unconstrained, an input-iterator range is
